@@ -85,6 +85,37 @@ def ability_job(job):
             n += 1
             call_expect(w, gen, lambda: ac.set_power(pc), f"{tag}.set_power({pc.name})", f"at{gen}:set_power:{pc.name}", bad,
                         pc.name in pcs, lambda r: cc.match_ac_control(gen, r, cc.ac_intent(a, power=cc.PC[pc.name])))
+    # the console reports, for each AC, a mode and a fan speed the ability record does NOT advertise (set at the wall
+    # panel, or by a firmware that advertises less than it does): what the client refuses still follows the ability
+    for ac in sorted(w.at.air_conditioners, key=lambda x: x.ac_id):
+        a = ac.ac_id
+        modes, fans = combos[a]
+        m_un = next((m for m in MODES if m not in modes), None)
+        f_un = next((f for f in (FANS4 if gen == 4 else FANS5) if f not in fans and f not in ("auto", "intelligent_auto")), None)
+        if m_un is None and f_un is None:
+            continue
+        st = w.console.state["ac"][a]
+        if m_un:
+            st["mode"] = m_un
+        if f_un:
+            st["fan"] = f_un
+        w.console.send_raw(w.console.ac_status_frame(only=[a]))
+        w.loop.settle()
+        tag = f"at{gen} ac{a} modes={sorted(modes)} fans={sorted(fans)} after a status reporting mode={m_un} fan={f_un}"
+        got_m = sorted(m.name.lower() for m in ac.supported_modes)
+        got_f = sorted(f.name.lower() for f in ac.supported_fan_speeds)
+        if got_m != sorted(modes) or got_f != sorted(fans):
+            bad.append((f"at{gen}:supported-lists-after-status", f"{tag}: supported_modes {got_m} / fan speeds {got_f}"))
+        if m_un:
+            n += 1
+            m = A.AcMode[m_un.upper()]
+            call_expect(w, gen, lambda: ac.set_mode(m), f"{tag}.set_mode({m.name})", f"at{gen}:set_mode-after-status:{m.name}", bad,
+                        False, lambda r: None)
+        if f_un:
+            n += 1
+            f = A.AcFanSpeed[f_un.upper()]
+            call_expect(w, gen, lambda: ac.set_fan_speed(f), f"{tag}.set_fan_speed({f.name})", f"at{gen}:set_fan_speed-after-status:{f.name}", bad,
+                        False, lambda r: None)
     k = len(JUDGED)
     JUDGED.clear()
     return n, bad, k
